@@ -1,20 +1,24 @@
 # run parameters and manifest texts of the C02 check (read by ../props.py)
-PROP = dict(
-    engine="stack", test="TestC02", level="exploration",
-    quick=dict(checks=200, shards=14, timeout=1500),
-    thorough=dict(checks=2500, shards=14, timeout=3400),
-    rule="history family: rapid draws 2-5 invocations with outcome kinds {success, error, timeout, runtime exit, explicit reset} and inserts "
-         "0-2 extra submissions (response or error) per invocation with an id that is garbage, the id of an earlier invocation (completed, "
-         "timed out, crashed or reset: 'nth:k' = k-th id any runtime received) or the current id after its answer was accepted (duplicate), "
-         "placed by latches before the reservation, after the reservation while the fresh runtime has not polled, after dispatch, or after "
-         "the accepted answer; sent by the runtime itself or by another process. h2 family: the failure handling of an invocation whose "
-         "runtime exited is parked at vhook fastinvoke.failure, the timeout answers it, the next invocation is reserved and dispatched, then "
-         "the parked failure handling is released. Oracle: every extra submission is answered 400 InvalidRequestID or 403 "
-         "InvalidStateTransition, never accepted; every invocation ends exactly as its kind prescribes without extras (own response/error "
-         "body, timeout text, Runtime.ExitError), the runtime's own answers are accepted, no caller sees bytes of a refused submission, a "
-         "final invocation succeeds; in h2 the second caller gets its own response. Non-trivial: an extra with an id that was valid earlier.",
-    assumptions=["fake process supervisor (DESIGN 3.4)", "the outcome of an invocation whose environment is reset explicitly underneath it is not constrained"],
-    level_text="random search over invocation histories with stale/duplicate submissions placed at four protocol positions, plus one hook-ordered schedule of the platform-generated error path.",
-    level_note="arrival of a stale submission inside the interop server's critical section is covered only by its mutex, not schedulable from outside",
-    technique="property-based testing (rapid): generated histories with injected refused calls (metamorphic: outcomes equal the history without them), one hook-ordered schedule",
-)
+PROP = {'engine': 'stack',
+ 'test': 'TestC02',
+ 'level': 'exploration',
+ 'quick': {'checks': 200, 'shards': 14, 'timeout': 1500},
+ 'thorough': {'checks': 6000, 'shards': 14, 'timeout': 3400},
+ 'rule': 'history family: rapid draws 2-5 invocations with outcome kinds {success, error, timeout, runtime exit, explicit reset} and inserts 0-2 '
+         'extra submissions (response or error) per invocation with an id that is garbage, the id of an earlier invocation (completed, timed out, '
+         "crashed or reset: 'nth:k' = k-th id any runtime received) or the current id after its answer was accepted (duplicate), placed by latches "
+         'before the reservation, after the reservation while the fresh runtime has not polled, after dispatch, or after the accepted answer; sent '
+         'by the runtime itself or by another process. h2 family: the failure handling of an invocation whose runtime exited is parked at vhook '
+         'fastinvoke.failure, the timeout answers it, the next invocation is reserved and dispatched, then the parked failure handling is released. '
+         'Oracle: every extra submission is answered 400 InvalidRequestID or 403 InvalidStateTransition, never accepted; every invocation ends '
+         "exactly as its kind prescribes without extras (own response/error body, timeout text, Runtime.ExitError), the runtime's own answers are "
+         'accepted, no caller sees bytes of a refused submission, a final invocation succeeds; in h2 the second caller gets its own response. '
+         'Non-trivial: an extra with an id that was valid earlier.',
+ 'assumptions': ['fake process supervisor (DESIGN 3.4)',
+                 'the outcome of an invocation whose environment is reset explicitly underneath it is not constrained'],
+ 'level_text': 'random search over invocation histories with stale/duplicate submissions placed at four protocol positions, plus one hook-ordered '
+               'schedule of the platform-generated error path.',
+ 'level_note': "arrival of a stale submission inside the interop server's critical section is covered only by its mutex, not schedulable from "
+               'outside',
+ 'technique': 'property-based testing (rapid): generated histories with injected refused calls (metamorphic: outcomes equal the history without '
+              'them), one hook-ordered schedule'}
